@@ -45,6 +45,9 @@ def scenarios(tier):
     # to wait for (ECHILD) - a different path through the periodic sweep
     out.append(Scenario('sweep', n0=1, pat='obedient', tier=tier, nodet=True, solo=True))
     out.append(Scenario('hist', n0=1, pat='obedient', tier=tier, solo=True))
+    # a watcher reloaded by SIGHUP (send_hup) that also has stop_children: its workers survive a reload, and so must the
+    # picture the events give of them
+    out.append(Scenario('hist', n0=2, pat='hup-aware', tier=tier, hup=True))
     return out
 
 
@@ -226,7 +229,12 @@ def run(scn, ch):
     tier = scn.tier
 
     def make_world(ch):
-        specs = [WSpec('a', numprocesses=scn.n0, graceful_timeout=G, behaviours=pattern(scn.pat))]
+        if scn.p.get('hup'):
+            from vt.simkernel import Behaviour
+            beh = [Behaviour('hup-aware', {1: ('ignore',)})]
+            specs = [WSpec('a', numprocesses=scn.n0, graceful_timeout=G, behaviours=beh, send_hup=True, stop_children=True)]
+        else:
+            specs = [WSpec('a', numprocesses=scn.n0, graceful_timeout=G, behaviours=pattern(scn.pat))]
         if not scn.p.get('solo'):
             specs.append(WSpec('z', numprocesses=1, graceful_timeout=G))
         world = World(ch, specs, check_delay=scn.p.get('tick', 1.0))
